@@ -87,7 +87,8 @@ func smScenario(script string) *sched.Scenario {
 			}
 			vrt.Observe("done")
 		},
-		ThoroughOnly: len(script) > 3,
+		ThoroughOnly:          len(script) > 3,
+		UnboundedThoroughOnly: script == "DDD" || script == "RDD",
 	}
 }
 
@@ -153,7 +154,8 @@ func dagScenario(name string, thorough bool, ops ...dagOp) *sched.Scenario {
 			d.Unlock("A")
 			vrt.Observe("done")
 		},
-		ThoroughOnly: thorough,
+		ThoroughOnly:          thorough,
+		UnboundedThoroughOnly: len(ops) > 2,
 	}
 }
 
